@@ -5,9 +5,12 @@ package task
 //verif:pkg core/task
 
 import (
+	"context"
+
 	"github.com/AliceO2Group/Control/common/utils/uid"
 	vrt "github.com/AliceO2Group/Control/zz_vrt"
 	mesos "github.com/mesos/mesos-go/api/v1/lib"
+	"github.com/mesos/mesos-go/api/v1/lib/scheduler"
 )
 
 var c18States = []mesos.TaskState{
@@ -78,4 +81,58 @@ func HarnessReconciliationDecision() {
 	case !reconciliation:
 		vrt.Assert(kills == 0, "ordinary-status-updates-never-kill")
 	}
+}
+
+// Two consecutive reconciliation answers (the core reconnected twice, or the first KILL was lost): every answer
+// about a task this core does not know and Mesos reports alive is answered with a KILL of its own, whether the
+// previous KILL call succeeded or not - the leftover is pursued until it is gone.
+//verif:entry HarnessRepeatedReconciliation unwind=16 preempt=1 reach=twice stub=github.com/AliceO2Group/Control/common/utils.TimeTrack
+func HarnessRepeatedReconciliation() {
+	other, _ := ftTask("other", uid.ID("2oDvieFrVTi"), true)
+	w := ftManager(Tasks{other}, nil)
+	firstKillLost := vrt.Bool("first.kill.lost")
+	w.caller.fail = func(id string) bool { return firstKillLost && len(w.caller.kills) == 1 }
+	alive := []mesos.TaskState{mesos.TASK_STAGING, mesos.TASK_STARTING, mesos.TASK_RUNNING}
+	agent := mesos.AgentID{Value: "agent-x"}
+	want := 0
+	for i := 0; i < 2; i++ {
+		st := alive[vrt.IntRange("mesos.state", 0, len(alive)-1)]
+		sameTask := i == 0 || vrt.Bool("same.task")
+		id := "task-x"
+		if !sameTask {
+			id = "task-y"
+		}
+		r := mesos.REASON_RECONCILIATION
+		err := w.m.handleMessage(NewTaskStatusMessage(mesos.TaskStatus{TaskID: mesos.TaskID{Value: id}, State: &st, AgentID: &agent, Reason: &r}))
+		vrt.Assert(err == nil, "status-update-is-handled")
+		if id == "task-x" {
+			want++
+		}
+	}
+	vrt.Assert(w.caller.killed("task-x") == want, "every-reconciliation-answer-about-a-live-leftover-is-answered-with-a-kill")
+	vrt.Assert(w.caller.killed("task-y") == 2-want, "every-reconciliation-answer-about-a-live-leftover-is-answered-with-a-kill")
+	vrt.Assert(w.caller.killed("task-other") == 0, "unrelated-tasks-are-never-killed")
+	vrt.Reach("twice")
+}
+
+// What the core asks on every (re-)subscription: an implicit reconciliation (no task listed), whatever is in
+// the roster at that time, so that the master reports every task of the framework - also those this core
+// does not know.
+//verif:entry HarnessReconcileOnSubscribed unwind=16 preempt=0 reach=asked stub=github.com/AliceO2Group/Control/common/utils.TimeTrack
+func HarnessReconcileOnSubscribed() {
+	var tasks Tasks
+	n := vrt.IntRange("roster.size", 0, 2)
+	for i := 0; i < n; i++ {
+		owner := uid.ID("")
+		if vrt.Bool("owned") {
+			owner = uid.ID("2oDvieFrVTi")
+		}
+		t, _ := ftTask([]string{"a", "b"}[i], owner, true)
+		tasks = append(tasks, t)
+	}
+	w := ftManager(tasks, nil)
+	err := w.m.schedulerState.reconciliationCall()(context.Background(), &scheduler.Event{Type: scheduler.Event_SUBSCRIBED})
+	vrt.Assert(err == nil, "subscribed-event-is-handled")
+	vrt.Assert(len(w.caller.reconciles) == 1 && w.caller.reconciles[0] == 0, "every-subscription-asks-for-an-implicit-reconciliation")
+	vrt.Reach("asked")
 }
